@@ -68,10 +68,15 @@ def iter_fn_factory():
     return fid, f
 
 
-# model element: ("L", id) | ("I", fid, i) | ("T", fid, x) | ("V", value) | ("F", fid, child)
+BUILTINS = {"str": str, "repr": repr, "bool": bool, "type": type}
+
+
+# model element: ("L", id) | ("I", fid, i) | ("T", fid, x) | ("V", value) | ("F", fid, child) | ("B", builtin name, child)
 def m_value(e):
     if e[0] == "V":
         return e[1]
+    if e[0] == "B":
+        return BUILTINS[e[1]](m_value(e[2]))
     if e[0] == "F":
         return ("F", e[1], m_value(e[2]))
     return e
@@ -86,11 +91,13 @@ def m_log(e):
         return [("idx", e[1], e[2])]
     if e[0] == "T":
         return [("it", e[1], e[2])]
+    if e[0] == "B":
+        return m_log(e[2])
     return m_log(e[2]) + [("f", e[1])]
 
 
 def m_depth(e):
-    return 1 + m_depth(e[2]) if e[0] == "F" else 1
+    return 1 + m_depth(e[2]) if e[0] in ("F", "B") else 1
 
 
 class NonReading(taps.Monitor):
@@ -173,11 +180,15 @@ def w_program(ctx, rng, i):
     maxdepth_read = 0
     for step in range(nops):
         a, am, _ = pool[rng.integers(0, len(pool))]
-        op = ["map", "mapmany", "slice", "fancy", "repeat", "addlazy", "addlist", "copy", "raddchain"][rng.integers(0, 9)]
+        op = ["map", "mapmany", "slice", "fancy", "repeat", "addlazy", "addlist", "copy", "raddchain", "mapbuiltin"][rng.integers(0, 10)]
         n0 = len(LOG)
         if op == "map":
             f = Fn()
             r, rm = a.map(f), [("F", f.id, e) for e in am]
+        elif op == "mapbuiltin":
+            # an ordinary callable that happens to be a class (a converter): list.map would be [str(x) for x in xs]
+            nm = list(BUILTINS)[rng.integers(0, len(BUILTINS))]
+            r, rm = a.map(BUILTINS[nm]), [("B", nm, e) for e in am]
         elif op == "mapmany":
             fs = [Fn() for _ in am]
             if rng.random() < 0.5:
